@@ -71,8 +71,8 @@ def gen_cases(tier, seed):
     reps = 8 if tier == "quick" else 80
     cases = []
     for pair in discover_pairs():
-        for direction in ("from-receivers", "from-partner", "at-creation"):
-            for rep in range(reps if direction != "at-creation" else max(reps // 2, 2)):
+        for direction in ("from-receivers", "from-partner", "at-creation", "metadata-text"):
+            for rep in range(reps if direction in ("from-receivers", "from-partner") else max(reps // 2, 2)):
                 cases.append({"kind": "pair", "pair": list(pair), "direction": direction, "steps": 6 + (rep % 4) * 3 if tier == "quick" else 8 + (rep % 5) * 3, "rep": rep})
     return cases
 
@@ -288,9 +288,17 @@ def run_case(case, rec):
             # the partner is named in the call that creates the entity (the link is made while the entity is being built)
             rx, tx, extra = build_pair(ws, pair, rng, parent=home, link_at_creation=True)
             rec.see("links-made-at-creation")
+        elif direction == "metadata-text" and pair[3] in ("em", "tipper"):
+            # the link written through the metadata entry point, the partner's identifier given as text (as it comes out of
+            # a json document), with or without braces
+            rx, tx, extra = build_pair(ws, pair, rng, parent=home)
+            key = "Base stations" if pair[3] == "tipper" else "Transmitters"
+            text = str(tx.uid) if case["rep"] % 2 else "{" + str(tx.uid) + "}"
+            rx.edit_em_metadata({key: text})
+            rec.see("links-made-through-metadata-text")
         else:
             rx, tx, extra = build_pair(ws, pair, rng, parent=home)
-            link(pair, rx, tx, direction if direction != "at-creation" else "from-receivers", extra)
+            link(pair, rx, tx, direction if direction in ("from-receivers", "from-partner") else "from-receivers", extra)
         if pair[3] == "dc" and case["rep"] % 3 == 0:
             # projects that went through ANALYST carry a coordinate reference system: a nested section next to the flat link keys
             side = rng.choice([rx, tx])
@@ -304,7 +312,7 @@ def run_case(case, rec):
         judge_pair(rec, ws, pair, rx, tx, "link:" + direction)
         n_copy = n_reopen = 0
         for step in range(case["steps"]):
-            kinds = ["edit"] * 4 + ["reopen", "copy", "copy"] + (["relink"] if pair[3] in ("em", "tipper") else []) if menu else ["reopen", "copy", "copy", "touch"]
+            kinds = ["edit"] * 4 + ["reopen", "copy", "copy"] + (["relink"] if pair[3] in ("em", "tipper") else []) + (["refused-relink"] if pair[3] == "tipper" and np.asarray(tx.vertices).shape[0] > 2 else []) if menu else ["reopen", "copy", "copy", "touch"]
             k = rng.choice(kinds)
             if k == "edit":
                 name, make = rng.choice(menu)
@@ -334,6 +342,22 @@ def run_case(case, rec):
                         got = f"<raises {type(exc).__name__}>"
                     rec.check("C20.asymmetric", got == expected[name], op=f"edit-through-{side_name}", cls=pair[0], attr=name, detail=f"{name} set through {side_name} to {short(expected[name])}, {who} reads {short(got)}")
                 judge_pair(rec, ws, pair, rx, tx, f"edit-through-{side_name}", attr=name)
+            elif k == "refused-relink":
+                from geoh5py import objects
+
+                steps.append(("refused-relink", "rx", ""))
+                rec.see("steps:refused-relink")
+                bad = getattr(objects, pair[2]).create(ws, vertices=np.asarray(tx.vertices)[:2] + 3.0, name=f"bad{step}", parent=home)
+                try:
+                    rx.base_stations = bad
+                    rec.see("refused-relink-accepted")
+                    tx = bad
+                except Exception as exc:  # noqa: BLE001
+                    if not exc_origin(exc)[0]:
+                        raise
+                    rec.see("relinks-refused")
+                bad = None
+                judge_pair(rec, ws, pair, rx, tx, "refused-relink")
             elif k == "relink":
                 from geoh5py import objects
 
